@@ -235,7 +235,7 @@ func parent(prop string, scs []Scenario) {
 	hits := map[string]sigHit{}
 	hitCount := map[string]int{}
 	var nSeqSamples int
-	var innerCases int64
+	var innerCases, seqExecs int64
 
 	for si := range scs {
 		sc := &scs[si]
@@ -304,6 +304,9 @@ func parent(prop string, scs []Scenario) {
 			completed = bound
 		}
 		boundDone[sc.Name] = completed
+		if sc.Sequential {
+			seqExecs += int64(merged.Executions)
+		}
 		r.EvalN(int64(merged.Executions))
 		if sc.Extra != nil {
 			n, keys := sc.Extra()
@@ -372,7 +375,9 @@ func parent(prop string, scs []Scenario) {
 	for k := range allFP {
 		r.DistinctHash(k)
 	}
-	r.AddStates(int64(len(allFP))+1, steps+1)
+	// states: distinct happens-before fingerprints expanded, plus one end state per execution of the
+	// enumerated (sequential) grid points and per case enumerated inside them
+	r.AddStates(int64(len(allFP))+seqExecs+innerCases+1, steps+1)
 	r.AddTraces(r.Evaluations())
 	r.Set("scheduling_steps", steps)
 	r.Set("cases_enumerated_inside_executions", innerCases)
